@@ -322,3 +322,23 @@ Definition consistentb (g : graph) (h : nat -> Z) : bool :=
   forallb (fun s => (if g_goal g s then h s =? 0 else true) &&
                     forallb (fun e => h s <=? e_cost e + h (e_dst e)) (g_succ g s))
           (seq 0 (g_n g)).
+
+(* ------------------------------------------------------------------------- *)
+(* DeterministicShortestPathProblem.from_mdp: how the single outcome of an   *)
+(* initial / next-state distribution is read:  sup = dist.support;           *)
+(* assert len(sup) == 1; return sup[0].                                      *)
+(* DeterministicDistribution.support is a tuple, UniformDistribution.support *)
+(* a list, DictDistribution.support a dict keys view (len works, [0] raises  *)
+(* TypeError).  None = the read raises.                                      *)
+(* ------------------------------------------------------------------------- *)
+Inductive support_repr := SupTuple (l : list nat) | SupList (l : list nat) | SupKeys (l : list nat).
+Definition sup_len (s : support_repr) : nat :=
+  match s with SupTuple l | SupList l | SupKeys l => length l end.
+Definition sup_index0 (s : support_repr) : option nat :=
+  match s with SupTuple l | SupList l => hd_error l | SupKeys _ => None end.
+Inductive dist_repr := DDet (x : nat) | DDict (x : nat) | DUnif (x : nat).
+Definition dist_support (d : dist_repr) : support_repr :=
+  match d with DDet x => SupTuple [x] | DDict x => SupKeys [x] | DUnif x => SupList [x] end.
+Definition dist_outcome (d : dist_repr) : nat := match d with DDet x | DDict x | DUnif x => x end.
+Definition from_mdp_read (d : dist_repr) : option nat :=
+  let s := dist_support d in if (sup_len s =? 1)%nat then sup_index0 s else None.
